@@ -136,7 +136,7 @@ def exec_case(ctx, r):
     except Exception as ex:
         ctx.stat(f"oracle_unavailable[{type(ex).__name__}]")
         return
-    if n <= 60 and not premise_ok(coll, n, m, M):
+    if not premise_ok(coll, n, m, M):
         ctx.stat("premise_failed_discarded")
         return
     F, back = CM.reference_dp(coll, point, n, m, M, pen_c, pen_p)
